@@ -143,6 +143,8 @@ def schedule_of(src):
     if src[0] == "folder":
         sch = yaml.safe_load(open(os.path.join(corpus.PKG, src[1], "schedule.yaml")))["schedule"]
         return [tuple(sch[k]) for k in sorted(sch)]
+    if src[1].get("pattern"):
+        return [(f"overlay_{j}.yaml",) for j in src[1]["pattern"]]
     n = src[1].get("entries", 2)
     return [(f"overlay_{k}.yaml",) for k in range(n)]
 
@@ -453,6 +455,11 @@ class Check:
         for g in range(3 if q else 12):
             sd = seed * 1000 + 300 + g
             specs.append({"name": f"wrap-genfolder-{sd}", "kind": "schedule_wrap", "src": ["genfolder", {"seed": sd, "family": ["routed", "dmz", "lan"][g % 3], "entries": 2 + g % 2}],
+                          "seed": sd, "steps": 24 if q else 50, "extra": 3})
+        for g in range(2 if q else 8):  # schedules whose consecutive entries name the SAME file list ([0, 0, 1]) and schedules of length 1
+            sd = seed * 1000 + 330 + g
+            specs.append({"name": f"wrap-genfolder-repeat-{sd}", "kind": "schedule_wrap", "src": ["genfolder", {"seed": sd, "family": ["routed", "dmz"][g % 2], "entries": 2,
+                                                                                                               "pattern": [[0, 0, 1], [0]][g % 2]}],
                           "seed": sd, "steps": 24 if q else 50, "extra": 3})
         kinds = ["equal", "nmne-flip", "io-on", "thresholds", "other-seed", "obs-options"]
         j = 0
